@@ -125,10 +125,11 @@ PROPS = {
     },
     "C01": {
         "engines": [{"name": "incoming", "n": {"quick": 2000, "thorough": 60000}, "profiles": ["debug"], "oracle": "oracle"},
-                    {"name": "client", "n": {"quick": 500, "thorough": 30000}, "profiles": ["debug"], "oracle": "oracle_C01", "shard": 15}],
-        "rule": "engine incoming: see C16 (every accepted block must be keyed by the CID rebuilt from its prefix and the table's digest of its bytes). engine client: the client half of Behaviour driven op by op (get incl. unconvertible CIDs, cancel of issued and foreign ids, connections opened/closed (via ConnectionClosed and via ClientClosingConnection), incoming client messages with presences and blocks, sending-state reports (protocol-conforming, late, from other connections), release of scripted blockstore get/put calls with hit / miss / failure in any order, virtual-clock advances around 1 s / 5 s / 30 s, ClientBehaviour::poll to Pending, get_new_blocks) over 1-3 peers x <= 3 connections x 2-4 CIDs; after every op the outputs and a full snapshot of the client state are compared with the model. The oracles are folds over the op history and the implementation's outputs/snapshots only. Every history is non-trivial; distinct = distinct op lists.",
+                    {"name": "client", "n": {"quick": 500, "thorough": 30000}, "profiles": ["debug"], "oracle": "oracle_C01", "shard": 15},
+                    {"name": "node", "n": {"quick": 300, "thorough": 20000}, "profiles": ["debug"], "oracle": "oracle_C01", "shard": 25}],
+        "rule": "engine node: one complete Behaviour (client + server + lib.rs glue) behind the real process_message with a healthy scripted blockstore, against Node.v; oracle: every block in the store was put by the application or hashes to its CID, every response carries data hashing to its query's CID. engine incoming: see C16 (every accepted block must be keyed by the CID rebuilt from its prefix and the table's digest of its bytes). engine client: the client half of Behaviour driven op by op (get incl. unconvertible CIDs, cancel of issued and foreign ids, connections opened/closed (via ConnectionClosed and via ClientClosingConnection), incoming client messages with presences and blocks, sending-state reports (protocol-conforming, late, from other connections), release of scripted blockstore get/put calls with hit / miss / failure in any order, virtual-clock advances around 1 s / 5 s / 30 s, ClientBehaviour::poll to Pending, get_new_blocks) over 1-3 peers x <= 3 connections x 2-4 CIDs; after every op the outputs and a full snapshot of the client state are compared with the model. The oracles are folds over the op history and the implementation's outputs/snapshots only. Every history is non-trivial; distinct = distinct op lists.",
         "assumptions": ["A-HASH: the hash oracle of the model is the table of answers the harness obtained from the real MultihasherTable",
-                        "the hand-over of stored blocks to the server half (lib.rs poll) is exercised by the node-level engine of C02 when present; here get_new_blocks is observed directly"],
+                        "the hand-over of stored blocks to the server half (lib.rs poll) is exercised by the node engine; in the client engine get_new_blocks is observed directly"],
     },
     "C17": {
         "engines": [{"name": "wantlist", "n": {"quick": 1200, "thorough": 60000}, "profiles": ["debug"], "oracle": "oracle_C17", "shard": 300}],
@@ -165,7 +166,8 @@ PROPS = {
                     {"name": "incoming", "n": {"quick": 1500, "thorough": 60000}, "profiles": ["debug", "release"], "oracle": "oracle"},
                     {"name": "client", "n": {"quick": 300, "thorough": 20000}, "profiles": ["debug", "release"], "oracle": "oracle_C03", "shard": 15},
                     {"name": "server", "n": {"quick": 60, "thorough": 3000}, "profiles": ["debug", "release"], "oracle": "oracle_C07", "shard": 20},
-                    {"name": "handler", "n": {"quick": 400, "thorough": 20000}, "profiles": ["debug"], "oracle": "oracle_C14", "shard": 50}],
+                    {"name": "handler", "n": {"quick": 400, "thorough": 20000}, "profiles": ["debug"], "oracle": "oracle_C14", "shard": 50},
+                    {"name": "node", "n": {"quick": 300, "thorough": 20000}, "profiles": ["debug", "release"], "oracle": "oracle_C08", "shard": 25}],
         "rule": "engines codec (mutated / structured / exhaustive short frames, prefixes of every varint length, non-canonical encodings), prefix (all strings of <= 4/5 "
                 "bytes over a 10-byte boundary alphabet, structured prefixes), incoming (adversarial message values), client and server (behaviours under arbitrary "
                 "op sequences), handler (client handler under arbitrary scripted I/O) — in the overflow-checked (debug) AND the release profile; in release every decode of a "
@@ -201,12 +203,15 @@ PROPS = {
     },
     "C02": {
         "engines": [{"name": "net", "n": {"quick": 3000, "thorough": 80000}, "profiles": ["debug"], "oracle": "oracle_C02", "shard": 200, "distinct_io": True},
+                    {"name": "node", "n": {"quick": 400, "thorough": 20000}, "profiles": ["debug"], "oracle": "oracle_C02", "shard": 25},
                     {"name": "server", "n": {"quick": 80, "thorough": 3000}, "profiles": ["debug"], "oracle": "oracle_C06", "shard": 20},
                     {"name": "client", "n": {"quick": 300, "thorough": 20000}, "profiles": ["debug"], "oracle": "oracle_C04", "shard": 15}],
         "rule": "engine net: 2-4 complete nodes (real Behaviour + real ConnHandlers + real codec) wired by the harness's mini swarm over in-memory pipes; random histories of connect (up to 3 connections per pair) / "
                 "disconnect / get / cancel / local put / evict / clock advances, interleaved with harness-chosen scheduling steps (which behaviour or handler is polled, how many bytes a read returns, which blockstore call "
                 "completes next); then the fault-free continuation: settle, two refresh periods, settle. Oracle: every uncancelled query whose block is held by a node that is connected (same protocol name) at the end got "
-                "exactly one response carrying the block. engines server / client: the components' own liveness oracles (C06, C04). Non-trivial = at least one query; distinct = distinct observations.",
+                "exactly one response carrying the block. engine node: one complete Behaviour behind the real process_message with a healthy scripted blockstore, op by op against Node.v — the node that Net.v composes and that C02_direct / "
+                "C02_multi_hop quantify over (ties lib.rs: poll order client → new blocks → server, message routing, connection events); compared after every op: events, notifications, store calls, both snapshots, store contents; "
+                "oracle: no live query is silently dropped (its CID stays in the wantlist) and none is answered twice. engines server / client: the components' own liveness oracles (C06, C04). Non-trivial = at least one query; distinct = distinct observations.",
         "assumptions": ["partial: fairness (every component is polled again and again) is built into `settle` and into the harness's quiesce loop; whether the real code registers a waker for every condition that needs a "
                         "poll is runtime behaviour outside the models", "partial: A-SWARM / A-STREAM (mini swarm and pipes instead of libp2p-swarm / yamux)", "A-STORE: healthy blockstore (get answers the last put unless evicted)",
                         "time passes only when no component is starved for >= 1 s (a handler acknowledgement withheld for 1 s is a C05 fault, after which the client forgets a peer whose only connection it was)",
